@@ -114,7 +114,7 @@ from contracts.hashfile import _fs_havoc, hash_file_of, sha256_of  # noqa: E402,
 from contracts.c16 import relative  # noqa: E402,F401
 from zorg.domain.models import Note  # noqa: E402
 
-NLINES = 3 if os.environ.get("VERIF_TIER") != "thorough" else 5
+NLINES = 3 if os.environ.get("VERIF_TIER") != "thorough" else 4
 PATH = T.rec("Path", {"s": T.str()})
 UPD_BOUNDED = (f"bounded-symbolic: pages of at most {NLINES} lines and at most 2 notes to update (bodies of 1-2 lines); every line, ZID and line number "
                "fully symbolic; the line function and the value getter are uninterpreted functions")
